@@ -203,6 +203,10 @@ def check_unit(ex, s, u, d, seen, order, sync, limit):
     e = u['e']
     if not d['live']:
         return
+    from props.c05 import fresh_until
+    if e['t'] > fresh_until(ex, s, e['t']):
+        return          # the heartbeat deadline of this session has passed: the next touch may
+                        # find it timed out (C07's business), nothing about this unit is certain
     if refusal(ex, s, u, limit):
         if u['kind'] == 'post' and e['req'].done and e['req'].status == 200:
             raise V(ex, 'refused-body-answered-200', refusal(ex, s, u, limit),
